@@ -123,7 +123,9 @@ SCENARIO sc_vol(bool reversed, bool dotslash) { std::string d = "vin"; spit(d + 
 // an odd member count: the index table (14 bytes per entry) then ends off a 4-byte boundary and is followed by alignment padding
 SCENARIO sc_vol_odd(int count, bool reversed) { std::string d = "vodd"; std::vector<std::string> in; for (int i = 0; i < count; ++i) { std::string p = d + "/m" + std::to_string(i) + (i % 2 ? ".TXT" : ".b"); spit(p, std::string((std::size_t)(i * 3 % 7), (char)('a' + i))); in.push_back(p); }
 	if (reversed) std::reverse(in.begin(), in.end()); std::string out = "odd.vol"; fs::remove(out); Archive::VolFile::CreateArchive(out, in); observe("vol.odd" + std::to_string(count) + ".create", slurp(out)); Archive::VolFile v(out); observe("vol.odd" + std::to_string(count) + ".listing", dump(v)); }
-SCENARIO sc_clm(bool reversed) { std::string d = "cin"; spit(d + "/t1.wav", wav("AAAA", false)); spit(d + "/T2.wav", wav("BBBBBB", true)); spit(d + "/t_3.wav", wav("", false)); std::vector<std::string> in{d + "/t1.wav", d + "/T2.wav", d + "/t_3.wav"}; if (reversed) std::reverse(in.begin(), in.end());
+SCENARIO sc_clm(bool reversed, bool respelled) { std::string d = "cin"; spit(d + "/t1.wav", wav("AAAA", false)); spit(d + "/T2.wav", wav("BBBBBB", true)); spit(d + "/t_3.wav", wav("", false)); spit("cin2/t_3.wav", wav("", false));
+	std::vector<std::string> in{d + "/t1.wav", d + "/T2.wav", d + "/t_3.wav"}; if (respelled) in = {"./" + d + "/t1.wav", d + "//T2.wav", "cin2/t_3.wav"};       // the same files reached through other spellings / another directory
+	if (reversed) std::reverse(in.begin(), in.end());
 	std::string out = "o.clm"; fs::remove(out); Archive::ClmFile::CreateArchive(out, in); observe("clm.create", slurp(out)); Archive::ClmFile c(out); observe("clm.listing", dump(c)); c.ExtractFile(1, "ex.wav"); observe("clm.extract", slurp("ex.wav")); }
 SCENARIO sc_files() { Map m; m.Write("m.map"); observe("map.default.write.file", slurp("m.map")); auto b = BitmapFile::CreateIndexed(4, 9, 2); b.WriteIndexed("b.bmp"); observe("bmp.factory.write.file", slurp("b.bmp")); ArtFile a; a.Write("a.prt"); observe("prt.default.write.file", slurp("a.prt")); }
 
@@ -135,6 +137,6 @@ int main(int argc, char** argv) {
 	paint(); sc_save_parse(); paint(); sc_bmp_parse(); paint(); sc_prt_parse(); paint(); sc_files();
 	for (int k = 0; k < 4; ++k) { paint(); sc_vol(k & 1, k & 2); }
 	for (int count : {1, 3, 5, 7}) for (int k = 0; k < 2; ++k) { paint(); sc_vol_odd(count, k); }
-	for (int k = 0; k < 2; ++k) { paint(); sc_clm(k); }
+	for (int k = 0; k < 4; ++k) { paint(); sc_clm(k & 1, k & 2); }
 	return 0;
 }
